@@ -469,6 +469,28 @@ pub fn drive_kex(t: &mut Tracer, tier: &str, seed: u64) {
 }
 
 // ------------------------------------------------------------------------------------------------ C12
+/// another Jacobian representation of the same G2 point: (X l^2, Y l^3, Z l) for an Fp2 value l given as 64 bytes (c1 || c0)
+pub fn g2_rerand(q: &TwistPoint, l: &[u8]) -> TwistPoint {
+    let m = |a: &[u8], b: &[u8]| verif::fp2_op("mul", a, b);
+    let (l2, x, y, z) = (m(l, l), verif::fp2_bytes(&q.x), verif::fp2_bytes(&q.y), verif::fp2_bytes(&q.z));
+    let l3 = m(&l2, l);
+    TwistPoint { x: verif::fp2_from_bytes(&m(&x, &l2)), y: verif::fp2_from_bytes(&m(&y, &l3)), z: verif::fp2_from_bytes(&m(&z, l)) }
+}
+/// the affine representation (Z = 1) of a finite G2 point
+pub fn g2_affine(q: &TwistPoint) -> TwistPoint {
+    let zi = verif::fp2_op("inv", &verif::fp2_bytes(&q.z), &[0u8; 64]);
+    let mut r = g2_rerand(q, &zi);
+    r.z = TwistPoint::g_mul(&[1, 0, 0, 0]).z;
+    r
+}
+/// Fp2 values a shortcut keyed on Z (or on Z^2) could mistake for one: -1, 2, u, -u, 1 + u, and a random one
+pub fn special_fp2(rng: &mut Rng) -> Vec<(Vec<u8>, &'static str)> {
+    let pm1 = be_add_small(&hexb(P9_HEX), -1);
+    let (z, one, two) = (vec![0u8; 32], be_add_small(&vec![0u8; 32], 1), be_add_small(&vec![0u8; 32], 2));
+    let mut r = scalar(rng); r[0] &= 0x3f;
+    vec![([z.clone(), pm1.clone()].concat(), "z=-1"), ([z.clone(), two].concat(), "z=2"), ([one.clone(), z.clone()].concat(), "z=u"), ([pm1, z.clone()].concat(), "z=-u"),
+         ([one.clone(), one].concat(), "z=1+u"), ([z, r].concat(), "z=random")]
+}
 pub fn drive_pairing(t: &mut Tracer, tier: &str, seed: u64) {
     let thorough = tier == "thorough";
     let mut rng = Rng(seed ^ 0x9012);
@@ -524,6 +546,28 @@ pub fn drive_pairing(t: &mut Tracer, tier: &str, seed: u64) {
         let o = guard_plain(|| verif::pairing(&q, &p));
         let out = o.ok().cloned().unwrap_or_default();
         t.emit(&sess(), "sm9.pair_ident", json!({"prop": "C12", "a": bytes(&a), "b": bytes(&b), "cls": cls, "out": bytes(&out), "outcome": o.name(), "detail": o.detail()}));
+    }
+    // the same pair in OTHER Jacobian representations: Q = (X l^2, Y l^3, Z l) with l = -1, 2, u, ... (l^2 = 1 or l in Fp: what a
+    // "Q is affine" shortcut in the line functions could key on), P with special stored Z limbs; judged through G0^(ab)
+    {
+        let (a, b) = (scalar(&mut rng), scalar(&mut rng));
+        let qa = g2_affine(&TwistPoint::g_mul(&u(&a)));
+        let pa = Point::g_mul(&u(&b)).to_affine_point();
+        for (l, cls) in special_fp2(&mut rng) {
+            let q = g2_rerand(&qa, &l);
+            let o = guard_plain(|| verif::pairing(&q, &pa));
+            let out = o.ok().cloned().unwrap_or_default();
+            t.emit(&sess(), "sm9.pair_ident", json!({"prop": "C12", "a": bytes(&a), "b": bytes(&b), "cls": format!("q.{}", cls), "out": bytes(&out), "outcome": o.name(), "detail": o.detail()}));
+        }
+        use gm_sm9::fields::fp::mont_mul;
+        let mone = gm_sm9::u256::u256_sub(&u(&hexb(P9_HEX)), &pa.z).0;         // the stored form of -1 (p minus the Montgomery one)
+        for (zl, cls) in [([1u64, 0, 0, 0], "stored-1"), ([2, 0, 0, 0], "stored-2"), (mone, "z=-1"), ([0, 0, 0, 1], "limb3")] {
+            let (l2, l3) = (mont_mul(&zl, &zl), mont_mul(&mont_mul(&zl, &zl), &zl));
+            let p = Point { x: mont_mul(&pa.x, &l2), y: mont_mul(&pa.y, &l3), z: mont_mul(&pa.z, &zl) };
+            let o = guard_plain(|| verif::pairing(&qa, &p));
+            let out = o.ok().cloned().unwrap_or_default();
+            t.emit(&sess(), "sm9.pair_ident", json!({"prop": "C12", "a": bytes(&a), "b": bytes(&b), "cls": format!("p.{}", cls), "out": bytes(&out), "outcome": o.name(), "detail": o.detail()}));
+        }
     }
     // GT exponentiation (order N: g^(N-2) etc. stay within the library's pow precondition e < N-1)
     let g0 = guard_plain(|| verif::pairing(&TwistPoint::g_mul(&[1, 0, 0, 0]), &Point::g_mul(&[1, 0, 0, 0]))).ok().cloned().unwrap_or_default();
@@ -787,10 +831,11 @@ pub fn rng_ops_sm9(t: &mut Tracer, sess: &str, proc_id: u32, count: usize, injec
     let ra = Point::g_mul(&[9, 0, 0, 0]);
     for i in 0..count {
         let script = if inject { crate::suites::sm2::injection_script(N9_HEX, P9_HEX, rng, i) } else { vec![] };
-        let kind = ["keygen-sign", "keygen-enc", "keygen-enc2", "sign", "encrypt", "kx1a", "kx1b"][i % 7];
+        let kind = ["keygen-sign", "keygen-enc", "keygen-enc2", "sign", "encrypt", "kx1a", "kx1b", "keygen-sign2"][i % 8];
         // what the operation made of its scalar (checked by the specification on a sample of the operations: [k]P in TLA+ is expensive)
         let (o, _, log): (Outcome<Value>, _, _) = match kind {
-            "keygen-sign" => hooked(script, || { let _ = gm_sm9::key::generate_sign_master_key(); Ok(json!({"chk": "none"})) }),
+            "keygen-sign" => hooked(script, || { let k = gm_sm9::key::generate_sign_master_key(); Ok(json!({"chk": "g2pub", "q": g2_json(&k.ppubs)})) }),
+            "keygen-sign2" => hooked(script, || { let k = Sm9SignMasterKey::master_key_generate(); Ok(json!({"chk": "g2pub", "q": g2_json(&k.ppubs)})) }),
             "keygen-enc" => hooked(script, || { let k = gm_sm9::key::generate_enc_master_key(); Ok(json!({"chk": "g1pub", "pt": bytes(&k.ppube.to_bytes_be())})) }),
             "keygen-enc2" => hooked(script, || { let k = Sm9EncMasterKey::master_key_generate(); Ok(json!({"chk": "g1pub", "pt": bytes(&k.ppube.to_bytes_be())})) }),
             "sign" => { let (m, ks) = (rng.bytes(10), sc.ks.clone()); hooked(script, move || skey.sign(&m).map(|(h, s)| json!({"chk": "s9sig", "ks": bytes(&ks), "idb": bytes(b"signer"), "h": bytes(&ub(&h)), "pt": bytes(&s.to_bytes_be())})).map_err(|e| format!("{:?}", e))) }
